@@ -18,6 +18,7 @@ class LiteralValNode(Protocol):
 PRECEDENCE = {
     ast.Attribute: 10,
     ast.Call: 10,
+    ast.In: 10,
     ast.Not: 9,
     ast.USub: 9,
     ast.Mult: 8,
@@ -109,7 +110,9 @@ class AstToODataVisitor(visitor.NodeVisitor):
     def visit_BinOp(self, node: ast.BinOp) -> str:
         """:meta private:"""
         left = self._visit_and_paren_if_precedence_lower(node.left, type(node.op))
-        right = self._visit_and_paren_if_precedence_lower(node.right, type(node.op))
+        right = self._visit_and_paren_if_precedence_lower(
+            node.right, type(node.op), or_equal=True
+        )
         return left + " " + self.visit(node.op) + " " + right
 
     def visit_Eq(self, node: ast.Eq) -> str:
@@ -146,7 +149,7 @@ class AstToODataVisitor(visitor.NodeVisitor):
             node.left, type(node.comparator)
         )
         right = self._visit_and_paren_if_precedence_lower(
-            node.right, type(node.comparator)
+            node.right, type(node.comparator), or_equal=True
         )
         return left + " " + self.visit(node.comparator) + " " + right
 
@@ -161,7 +164,9 @@ class AstToODataVisitor(visitor.NodeVisitor):
     def visit_BoolOp(self, node: ast.BoolOp) -> str:
         """:meta private:"""
         left = self._visit_and_paren_if_precedence_lower(node.left, type(node.op))
-        right = self._visit_and_paren_if_precedence_lower(node.right, type(node.op))
+        right = self._visit_and_paren_if_precedence_lower(
+            node.right, type(node.op), or_equal=True
+        )
         return left + " " + self.visit(node.op) + " " + right
 
     def visit_Not(self, node: ast.Not) -> str:
@@ -210,11 +215,13 @@ class AstToODataVisitor(visitor.NodeVisitor):
         )
 
     def _visit_and_paren_if_precedence_lower(
-        self, node: ast._Node, precedence: Type[ast._Node]
+        self, node: ast._Node, precedence: Type[ast._Node], or_equal: bool = False
     ) -> str:
         """
         Transform `node` by visiting it, then wrap the result in parentheses if
         the expressions precedence is lower than that of `precedence`.
+        Binary operators are left-associative, so their right operand also needs
+        parentheses when its precedence is equal (`or_equal`).
 
         :meta private:
         """
@@ -230,7 +237,7 @@ class AstToODataVisitor(visitor.NodeVisitor):
         node_prec = PRECEDENCE.get(node_op, 100)
         check_prec = PRECEDENCE.get(precedence, 100)
 
-        if node_prec < check_prec:
+        if node_prec < check_prec or (or_equal and node_prec == check_prec):
             res = "(" + res + ")"
 
         return res
